@@ -4,13 +4,16 @@ From RL4CO Require Import Base.Num Base.EnvSig Spec.Routes Spec.SplitDelivery En
 Import ListNotations.
 Open Scope Z_scope.
 
-(* the checker (which has no tolerance constant: it tests `== 0`) decides exactly: existing nodes only, SOME depot
-   visit in the list, no two consecutive depot visits while demand is unserved, all demand served by the greedy decoding *)
+(* for EVERY action list the checker (which has no tolerance constant: it tests `== 0`) decides exactly: existing
+   nodes only, no two consecutive depot visits while demand is unserved (its documented format restriction), all
+   demand served by the greedy decoding.  (Before the repair 56d7d8e of /repo it also demanded a depot visit somewhere
+   in the list; that conjunct and the refutation witness are recorded as fixed in known_findings.json; the witness
+   stays in the correspondence stream.) *)
 Theorem C06_sdvrp_checker_iff :
   forall (i : cvrp_inst) (acts : list nat),
-    cvrp_wf i -> 0 < cap i ->
+    cvrp_wf i ->
     (sd_checker exact i acts = true <->
-     (forall a, In a acts -> (a <= n_of i)%nat) /\ In 0%nat acts /\
+     (forall a, In a acts -> (a <= n_of i)%nat) /\
      no_early_double_depot (0 :: dem i) (cap i) 0 false acts = true /\
      forallb (fun d => d =? 0) (greedy_rem (0 :: dem i) (cap i) 0 acts) = true).
 Proof. exact sdvrp_checker_iff. Qed.
@@ -20,27 +23,36 @@ Print Assumptions C06_sdvrp_checker_iff.
    customer receives exactly its demand) *)
 Theorem C06_sdvrp_checker_sound :
   forall (i : cvrp_inst) (acts : list nat),
-    cvrp_wf i -> 0 < cap i -> sd_checker exact i acts = true ->
+    cvrp_wf i -> sd_checker exact i acts = true ->
     let p := greedy (0 :: dem i) (cap i) 0 acts in
     (forall v, In v p -> (fst v <= n_of i)%nat) /\
     Forall (fun r => sumZ (map snd r) <= cap i) (plan_routes p) /\
     (forall j, (1 <= j <= n_of i)%nat -> delivered_to j p = demand i j).
-Proof. intros i acts H1 H2 H3. exact (proj1 (sdvrp_checker_sound i acts H1 H2 H3)). Qed.
+Proof. exact sdvrp_checker_sound. Qed.
 Print Assumptions C06_sdvrp_checker_sound.
 
-(* completeness in the checker's format: a solution that contains a depot visit and no early double depot is accepted *)
+(* completeness: every solution without an early double depot is accepted, with or without a depot visit in the list *)
 Theorem C06_sdvrp_checker_complete :
   forall (i : cvrp_inst) (acts : list nat),
-    cvrp_wf i -> 0 < cap i ->
+    cvrp_wf i ->
     sd_plan_ok (n_of i) (demand i) (cap i) (greedy (0 :: dem i) (cap i) 0 acts) ->
-    In 0%nat acts -> no_early_double_depot (0 :: dem i) (cap i) 0 false acts = true ->
+    no_early_double_depot (0 :: dem i) (cap i) 0 false acts = true ->
     sd_checker exact i acts = true.
 Proof. exact sdvrp_checker_complete. Qed.
 Print Assumptions C06_sdvrp_checker_complete.
 
+(* ... in particular every completed mask-made episode, padded or not (C01 + completeness; capacity > 0) *)
+Theorem C06_sdvrp_checker_accepts_mask_made :
+  forall (i : cvrp_inst) (acts : list nat),
+    cvrp_wf i -> 0 < cap i -> adm (E:=SDVRP exact) i acts = true ->
+    done (SDVRP exact) i (run (E:=SDVRP exact) i acts) = true ->
+    sd_checker exact i acts = true.
+Proof. exact sdvrp_checker_accepts_mask_made. Qed.
+Print Assumptions C06_sdvrp_checker_accepts_mask_made.
+
 Theorem C06_sdvrp_checker_rejects_unserved :
   forall (i : cvrp_inst) (acts : list nat) (j : nat),
-    cvrp_wf i -> 0 < cap i -> (1 <= j <= n_of i)%nat ->
+    cvrp_wf i -> (1 <= j <= n_of i)%nat ->
     delivered_to j (greedy (0 :: dem i) (cap i) 0 acts) <> demand i j ->
     sd_checker exact i acts = false.
 Proof. exact sdvrp_checker_rejects_unserved. Qed.
@@ -48,20 +60,16 @@ Print Assumptions C06_sdvrp_checker_rejects_unserved.
 
 Theorem C06_sdvrp_checker_rejects_unknown_node :
   forall (i : cvrp_inst) (acts : list nat) (a : nat),
-    cvrp_wf i -> 0 < cap i -> In a acts -> (n_of i < a)%nat -> sd_checker exact i acts = false.
+    cvrp_wf i -> In a acts -> (n_of i < a)%nat -> sd_checker exact i acts = false.
 Proof. exact sdvrp_checker_rejects_unknown_node. Qed.
 Print Assumptions C06_sdvrp_checker_rejects_unknown_node.
 
-(* FINDING (faithful model): completeness does NOT extend to the solutions the mask itself produces when everything is
-   served in one route and the row is not padded: the list contains no depot visit, the depot column of the checker's
-   vector still holds -capacity and the final `(demands == 0).all()` fails.  Reproduced on the real checker. *)
-Theorem C06_sdvrp_checker_single_route_refuted :
-  exists (i : cvrp_inst) (acts : list nat),
-    cvrp_wf i /\ 0 < cap i /\ adm (E:=SDVRP exact) i acts = true /\
-    done (SDVRP exact) i (run (E:=SDVRP exact) i acts) = true /\
-    sd_plan_ok (n_of i) (demand i) (cap i) (greedy (0 :: dem i) (cap i) 0 acts) /\ sd_checker exact i acts = false.
-Proof. exact sdvrp_checker_single_route_refuted. Qed.
-Print Assumptions C06_sdvrp_checker_single_route_refuted.
+(* the former witness (everything served in one route, no depot visit in the list) is now accepted *)
+Example C06_sdvrp_former_single_route_witness_accepted :
+  let i := {| dem := [3; 4]; cap := 8; dist := []; tol := 0 |} in
+  adm (E:=SDVRP exact) i [1; 2]%nat = true /\ done (SDVRP exact) i (run (E:=SDVRP exact) i [1; 2]%nat) = true /\
+  sd_checker exact i [1; 2]%nat = true.
+Proof. vm_compute. auto. Qed.
 
 Example C06_sdvrp_nonvacuous :
   let i := {| dem := [40; 40]; cap := 64; dist := []; tol := 0 |} in
